@@ -230,6 +230,7 @@ def compose_config(prog: Program, rep: Report):
              "dataset_mode=self.dataset_mode, return_ctx=self.return_ctx): the members run under the composite's own dataset mode "
              "and context setting.  Calling a member collator as a whole (member(batch)) lets it collate with *its* configuration: "
              "another item layout, or a bare batch where (batch, ctx) was configured")
+    prog = prog.keeping("_call_impl")  # the rule looks at the hand-over to the shared pipeline, not at the pipeline
     fi = prog.method("KDComposeCollator", "__call__", own=True, required=False)
     if fi is None:
         return
